@@ -48,8 +48,9 @@ mod v_iface_egress {
 
     macro_rules! env_eth {
         ($iface:ident, $tx:ident, $mtu:ident) => {
-            let $mtu = any_le(1500);
-            kani::assume($mtu >= 576);
+            // concrete MTU: a symbolic one makes CBMC encode the fragmentation branch of dispatch_ip as well
+            // (measured: out of memory at 8 GB); the oversize branch is C12's harnesses' subject
+            let $mtu = 1500usize;
             let mut dev = CapDev::<N>::new(Medium::Ethernet, $mtu + 14, ChecksumCapabilities::default());
             let now: i64 = kani::any();
             kani::assume(now >= 0 && now < (1i64 << 40));
@@ -78,7 +79,7 @@ mod v_iface_egress {
         total
     }
 
-    // @harness props=C10,C09 cfg=KI4 tier=q to=900 mem=8 unwind=50 opts=nomem covers=1 funcs=InterfaceInner::dispatch_ip;InterfaceInner::lookup_hardware_addr;Packet::emit_payload;wire::Ipv4Repr::emit;wire::UdpRepr::emit bounds=Ethernet,_MTU_576..1500,_tx_checksums_on;_UDP_with_any_ports,_hop_limit_and_4_payload_bytes;_neighbor_cached
+    // @harness props=C10,C09 cfg=KI4 tier=q to=900 mem=8 unwind=50 opts=nomem,fs300 covers=1 funcs=InterfaceInner::dispatch_ip;InterfaceInner::lookup_hardware_addr;Packet::emit_payload;wire::Ipv4Repr::emit;wire::UdpRepr::emit bounds=Ethernet,_MTU_1500,_tx_checksums_on;_UDP_with_any_ports,_hop_limit_and_4_payload_bytes;_neighbor_cached
     #[kani::proof]
     pub(crate) fn frame_wf_udp4() {
         env_eth!(iface, tx, mtu);
@@ -103,7 +104,7 @@ mod v_iface_egress {
         kani::cover!(tx.frames == 1 && pl[0] == 0xaa, "frame captured");
     }
 
-    // @harness props=C10 cfg=KI4 tier=q to=1200 mem=8 unwind=50 opts=nomem covers=2 funcs=InterfaceInner::dispatch_ip;Packet::emit_payload;wire::TcpRepr::emit;wire::TcpRepr::buffer_len bounds=Ethernet,_MTU_576..1500,_tx_checksums_on;_TCP_segment:_SYN_with_MSS+window_scale+SACK-permitted(+timestamp)_or_data_segment_with_timestamp/1_SACK_block,_payload_2_bytes,_all_field_values_symbolic
+    // @harness props=C10 cfg=KI4 tier=q to=1200 mem=8 unwind=50 opts=nomem,fs300 covers=2 funcs=InterfaceInner::dispatch_ip;Packet::emit_payload;wire::TcpRepr::emit;wire::TcpRepr::buffer_len bounds=Ethernet,_MTU_1500,_tx_checksums_on;_TCP_segment:_SYN_with_MSS+window_scale+SACK-permitted(+timestamp)_or_data_segment_with_timestamp/1_SACK_block,_payload_2_bytes,_all_field_values_symbolic
     #[kani::proof]
     pub(crate) fn frame_wf_tcp4() {
         env_eth!(iface, tx, mtu);
@@ -174,7 +175,7 @@ mod v_iface_egress {
         kani::cover!(!syn && ts, "data segment with timestamp and SACK block");
     }
 
-    // @harness props=C10,C03 cfg=KI4 tier=q to=900 mem=8 unwind=50 opts=nomem covers=1 funcs=InterfaceInner::dispatch_ip;Packet::emit_payload;wire::Icmpv4Repr::emit bounds=Ethernet,_MTU_576..1500,_tx_checksums_on;_ICMPv4_echo_reply_with_any_ident/seq_and_4_data_bytes
+    // @harness props=C10,C03 cfg=KI4 tier=q to=900 mem=8 unwind=50 opts=nomem,fs300 covers=1 funcs=InterfaceInner::dispatch_ip;Packet::emit_payload;wire::Icmpv4Repr::emit bounds=Ethernet,_MTU_1500,_tx_checksums_on;_ICMPv4_echo_reply_with_any_ident/seq_and_4_data_bytes
     #[kani::proof]
     pub(crate) fn frame_wf_icmp4() {
         env_eth!(iface, tx, mtu);
@@ -196,7 +197,7 @@ mod v_iface_egress {
     }
 
     // ARP replies and requests: fixed fields, legal sender
-    // @harness props=C10,C16 cfg=KI4 tier=q to=900 mem=8 unwind=50 opts=nomem covers=2 funcs=InterfaceInner::process_arp;InterfaceInner::dispatch;InterfaceInner::dispatch_ethernet;wire::ArpRepr::emit bounds=Ethernet;_arbitrary_28-byte_ARP_packet_in_an_Ethernet_frame_for_us;_reply_captured
+    // @harness props=C10,C16 cfg=KI4 tier=q to=900 mem=8 unwind=50 opts=nomem,fs300 covers=2 funcs=InterfaceInner::process_arp;InterfaceInner::dispatch;InterfaceInner::dispatch_ethernet;wire::ArpRepr::emit bounds=Ethernet;_arbitrary_28-byte_ARP_packet_in_an_Ethernet_frame_for_us;_reply_captured
     #[kani::proof]
     pub(crate) fn frame_wf_arp_reply() {
         env_eth!(iface, tx, mtu);
@@ -230,7 +231,7 @@ mod v_iface_egress {
     }
 
     // socket egress through a device: exactly-once on success, queue untouched under back-pressure, legal source
-    // @harness props=C09,C10 cfg=KI4 tier=q to=1200 mem=8 unwind=50 opts=nomem covers=3 funcs=Interface::socket_egress;udp::Socket::dispatch;InterfaceInner::dispatch_ip;InterfaceInner::get_source_address bounds=Ethernet;_one_UDP_socket_with_one_queued_4-byte_datagram_to_a_cached_on-link_peer;_device_accepts_or_refuses_(symbolic);_second_egress_pass
+    // @harness props=C09,C10 cfg=KI4 tier=q to=1200 mem=8 unwind=50 opts=nomem,fs300 covers=3 funcs=Interface::socket_egress;udp::Socket::dispatch;InterfaceInner::dispatch_ip;InterfaceInner::get_source_address bounds=Ethernet;_one_UDP_socket_with_one_queued_4-byte_datagram_to_a_cached_on-link_peer;_device_accepts_or_refuses_(symbolic);_second_egress_pass
     #[kani::proof]
     pub(crate) fn udp_egress_exactly_once() {
         let mtu = 1500usize;
@@ -287,7 +288,7 @@ mod v_iface_egress {
         kani::cover!(dev.tx.frames == 1 && pl[3] == 7, "frame captured");
     }
 
-    // @harness props=C10 kind=mustfail cfg=KI4 tier=q to=900 mem=8 unwind=50 opts=nomem
+    // @harness props=C10 kind=mustfail cfg=KI4 tier=q to=900 mem=8 unwind=50 opts=nomem,fs300
     #[kani::proof]
     pub(crate) fn iface_egress_must_fail() {
         env_eth!(iface, tx, mtu);
